@@ -348,7 +348,7 @@ def _ole_progid(env, v, s):
 
 # ---- hyperlinks
 
-@sink("hyperlink.address", variants=["shape", "picture", "run", "run-replace"], max_len=120)
+@sink("hyperlink.address", variants=["shape", "picture", "run", "run-replace", "run-shared", "run-shared-clear"], max_len=120)
 def _hlink(env, v, s):
     from pptx.enum.shapes import MSO_SHAPE
 
@@ -362,6 +362,22 @@ def _hlink(env, v, s):
         sh.click_action.hyperlink.address = s
         return prs, [("address", lambda p: p.slides[0].shapes[0].click_action.hyperlink.address, s)]
     tb = slide.shapes.add_textbox(0, 0, 100, 100)
+    if v in ("run-shared", "run-shared-clear"):
+        # two runs link to the same address (one shared relationship); one of them is then changed or cleared
+        # and another relationship is added: the untouched run must still read the caller's string
+        p = tb.text_frame.paragraphs[0]
+        r0, r1 = p.add_run(), p.add_run()
+        r0.text, r1.text = "first", "second"
+        r0.hyperlink.address = s
+        r1.hyperlink.address = s
+        r1.hyperlink.address = "http://other.example/" if v == "run-shared" else None
+        slide.shapes.add_picture(env.image("p.png"), 0, 0)
+        rd = [("address", lambda p_: p_.slides[0].shapes[0].text_frame.paragraphs[0].runs[0].hyperlink.address, s)]
+        if v == "run-shared":
+            rd.append(("other-address",
+                       lambda p_: p_.slides[0].shapes[0].text_frame.paragraphs[0].runs[1].hyperlink.address,
+                       "http://other.example/"))
+        return prs, rd
     r = tb.text_frame.paragraphs[0].add_run()
     r.text = "link"
     if v == "run-replace":
@@ -702,8 +718,9 @@ def _twin(sk, variant, env):
         try:
             _TWIN[k] = _execute(sk, variant, "x", env)
         except _Fail as f:
-            raise HarnessError("sink %s variant %r fails with the benign string: %s %s"
-                               % (sk.name, variant, f.clause, f.msg))
+            # "x" is a string of the domain like any other: failing with it is a violation, not a harness fault
+            raise Violation("C05:sink=%s:benign" % sk.name,
+                            "[%s] variant=%r s='x': %s" % (f.clause, variant, f.msg))
         for label, v in _TWIN[k][1].items():
             if "x" not in (v if isinstance(v, list) else [v]) and not any(
                     isinstance(e, list) and "x" in e for e in (v if isinstance(v, list) else [])):
